@@ -64,7 +64,7 @@ def parse_tree(text):
         elif w[0] == "def":
             cur["defs"].append((w[2], w[1] == "pub"))
         elif w[0] == "input":
-            cur = {"imports": [], "defs": []}
+            cur = {"imports": [], "defs": [], "fault": 0}
             t["inputs"].append(cur)
         elif w[0] == "opt":
             t["opt"] = int(w[1])
@@ -511,6 +511,7 @@ def session_oracle(t, inputs_obs, probes, bumps=None):
     tt["files"] = collections.OrderedDict(t["files"])
     for k, inp in enumerate(t["inputs"]):
         tt["files"]["in%d" % k] = {"imports": inp["imports"], "defs": [], "fault": 0}
+    rejected = {k for k, inp in enumerate(t["inputs"]) if inp.get("fault") == 1}
     raises = {f for f, m in t["files"].items() if m.get("fault") == 2}
     done, shared, accepted, reached, shared_at, reached_at = [], set(), [], set(), [], []
     for k, (code, tags) in enumerate(inputs_obs):
@@ -531,7 +532,12 @@ def session_oracle(t, inputs_obs, probes, bumps=None):
             fail("double-init", f"input {k}: a top level ran twice: {tags}")
         allowed = set(a["defects"]) | set(a["possible"])
         if not a["defects"]:
-            allowed.add(0)
+            # the imports load; an input that does not compile afterwards is rejected and never runs
+            allowed.add(5 if k in rejected else 0)
+            if k in rejected and code == 5:
+                for f in a["reach"]:
+                    if f != me and f not in done and f not in tags:
+                        fail("missing-init", f"input {k} (rejected after its imports loaded): {f} was never initialised in this session and did not run")
         if code not in allowed:
             if code == 0 and a["cycle"]:
                 fail("cycle-not-reported", f"input {k}: a reachable import cycle ran to completion")
@@ -650,6 +656,8 @@ def check_sessions(ctx, rows, prof, origin, stats):
             stats["session_outcomes"][CODES.get(code_k, str(code_k))] += 1
         if any(c_ != 0 for c_, _ in inputs_obs[:-1]):
             stats["sessions_continuing_after_a_failed_input"] += 1
+        if any(inp.get("fault") == 1 for inp in t["inputs"]):
+            stats["sessions_rejected_after_load"] += 1
         stats["distinct"].add(r[2].split(";", 1)[1])
         for sig, what in session_oracle(t, inputs_obs, probes, bumps):
             if gr is not None and "true" in gr and sig.startswith("ns:same-global-name"):
@@ -742,6 +750,138 @@ def check_rows(ctx, rows, prof, origin, stats):
                                           "files": "harness/src/bin/hx_modules.rs --file <tree text, ';' -> newline>"})
 
 
+# ------------------------------------------------------------------------------------------ compile, then run the bytecode
+# `aelys-cli compile` / `asm` + `aelys-cli run main.avbc|main.aasm` (cli/src/cli/commands/run.rs: collect_required_modules,
+# load_required_modules): the bytecode re-loads the SOURCE modules it requires; a module shared by several required
+# modules (diamond) or both required directly and imported by a required module must still initialise exactly once in
+# that run, and its state must be the one every importer sees.  Flat directories and whole-module imports only (aliased
+# and nested imports do not survive bytecode: open KF-C08-2).  Reference: the property itself (every tag once, the
+# counter values are 1..k) and the source run of the same project.
+def bytecode_projects(seed, n):
+    import random
+    rnd = random.Random(9000 + seed)
+    out = []
+    for idx in range(n):
+        k = 2 + (idx % 3)                                   # middles
+        two_shared = rnd.random() < 0.4
+        chain = rnd.random() < 0.4                         # shared imports a base module
+        direct = idx % 2 == 0                               # main also imports shared itself
+        nested_mid = rnd.random() < 0.5                     # one middle imports another middle that main imports too
+        files = {}
+        shared = ["sa"] + (["sb"] if two_shared else [])
+        if chain:
+            files["base.aelys"] = ('needs std.io\nio.println("I:base")\nlet mut zb = 0\npub fn tick_base() {\n    zb = zb + 1\n'
+                                   '    return zb\n}\n')
+        for sh in shared:
+            files[sh + ".aelys"] = ("needs std.io\n" + ("needs base\n" if chain else "") + f'io.println("I:{sh}")\n'
+                                    + (f"let b_{sh} = base.tick_base()\n" if chain else "")
+                                    + f"let mut c_{sh} = 0\npub fn bump_{sh}() {{\n    c_{sh} = c_{sh} + 1\n    return c_{sh}\n}}\n"
+                                    + (f"pub fn base_{sh}() {{ return b_{sh} }}\n" if chain else ""))
+        mids = ["m%d" % i for i in range(k)]
+        uses = {}
+        for i, m in enumerate(mids):
+            use = [sh for sh in shared if rnd.random() < 0.8] or [shared[0]]
+            uses[m] = use
+            imp_mid = mids[i - 1] if (nested_mid and i == k - 1 and k >= 2) else None
+            src = "needs std.io\n" + "".join(f"needs {sh}\n" for sh in use) + (f"needs {imp_mid}\n" if imp_mid else "")
+            src += f'io.println("I:{m}")\n'
+            for sh in use:
+                src += f"let v_{m}_{sh} = {sh}.bump_{sh}()\npub fn got_{m}_{sh}() {{ return v_{m}_{sh} }}\n"
+            if imp_mid:
+                src += f"pub fn via_{m}() {{ return {imp_mid}.got_{imp_mid}_{uses[imp_mid][0]}() }}\n"
+            files[m + ".aelys"] = src
+        order = mids[:]
+        rnd.shuffle(order)
+        main = "needs std.io\n"
+        imports = order + (shared if direct else [])
+        rnd.shuffle(imports)
+        main += "".join(f"needs {x}\n" for x in imports) + 'io.println("I:main")\n'
+        expect_vals = collections.defaultdict(list)
+        for m in mids:
+            for sh in uses[m]:
+                main += f'io.println("G:{sh}")\nio.println({m}.got_{m}_{sh}())\n'
+        if direct:
+            for sh in shared:
+                main += f'io.println("F:{sh}")\nio.println({sh}.bump_{sh}())\n'
+        files["main.aelys"] = main
+        per_shared = {sh: sum(1 for m in mids if sh in uses[m]) for sh in shared}
+        out.append({"name": f"bc{seed}-{idx}", "files": files, "modules": sorted(set(["main"] + mids + shared + (["base"] if chain else []))),
+                    "per_shared": per_shared, "direct": direct, "shape": f"{k} middles, shared {shared}, chain {chain}, main imports shared {direct}, "
+                    f"a middle imports a middle {nested_mid}"})
+    return out
+
+
+def bytecode_oracle(proj, out):
+    """the property on one run's output"""
+    lines = out.splitlines()
+    tags = collections.Counter(l[2:] for l in lines if l.startswith("I:"))
+    fails = []
+    for m in proj["modules"]:
+        if tags.get(m, 0) != 1:
+            fails.append(("bytecode:double-init" if tags.get(m, 0) > 1 else "bytecode:missing-init",
+                          f"module {m} initialised {tags.get(m, 0)} times in one run"))
+    got, final = collections.defaultdict(list), {}
+    for i, l in enumerate(lines):
+        if l.startswith("G:") and i + 1 < len(lines):
+            got[l[2:]].append(lines[i + 1])
+        if l.startswith("F:") and i + 1 < len(lines):
+            final[l[2:]] = lines[i + 1]
+    for sh, n in proj["per_shared"].items():
+        want = [str(x) for x in range(1, n + 1)]
+        if sorted(got.get(sh, []), key=lambda v: (len(v), v)) != want:
+            fails.append(("bytecode:state-reset", f"the importers of {sh} took the counter values {got.get(sh, [])}, one module instance gives {want} (in load order)"))
+        if proj["direct"] and final.get(sh) != str(n + 1):
+            fails.append(("bytecode:state-reset", f"main reads {sh}'s counter = {final.get(sh)} after {n} importers advanced it (expected {n + 1})"))
+    return fails
+
+
+def bytecode_route(ctx, stats, only=None):
+    from props import c03
+    cli = c03.cli_build(ctx)
+    if cli is None:
+        ctx.broken.append("cli: aelys-cli does not build from the tree under test")
+        return
+    projects = [only] if only else bytecode_projects(ctx.seed, 12 if ctx.tier == "quick" else 60)
+    root = os.path.join(vlib.CACHE, "c19bc-%d" % os.getpid())
+    shutil.rmtree(root, ignore_errors=True)
+    per_sig = collections.Counter()
+    try:
+        for proj in projects:
+            d = os.path.join(root, proj["name"])
+            os.makedirs(d)
+            for f, txt in proj["files"].items():
+                open(os.path.join(d, f), "w").write(txt)
+            runs = {}
+            rc, out = vlib.sh([cli, "run", "main.aelys"], cwd=d, timeout=60)
+            runs["source"] = (rc, out)
+            for kind, cmd, art in (("avbc", "compile", "main.avbc"), ("aasm", "asm", "main.aasm")):
+                rc_c, out_c = vlib.sh([cli, cmd, "main.aelys"], cwd=d, timeout=60)
+                if rc_c != 0 or not os.path.exists(os.path.join(d, art)):
+                    runs[kind] = (rc_c or 1, "[%s failed] %s" % (cmd, out_c[-400:]))
+                    continue
+                runs[kind] = vlib.sh([cli, "run", art], cwd=d, timeout=60)
+            stats["bytecode_projects"] += 1
+            for kind, (rc, out) in runs.items():
+                stats["bytecode_runs"] += 1
+                fails = []
+                if rc != 0:
+                    fails.append(("bytecode:run-failed" if kind != "source" else "unexpected-outcome", f"exit {rc}: {out[-300:]}"))
+                else:
+                    fails = bytecode_oracle(proj, out)
+                    if kind != "source" and runs["source"][0] == 0 and not fails and sorted(out.splitlines()) != sorted(runs["source"][1].splitlines()):
+                        fails.append(("bytecode:differs-from-source", "the bytecode run prints other lines than the source run"))
+                for sig, what in fails:
+                    sig = sig if kind != "source" else sig.replace("bytecode:", "source:")
+                    per_sig[sig] += 1
+                    stats["oracle_failures"][sig] += 1
+                    if per_sig[sig] <= 2:
+                        ctx.violation(sig, f"`aelys-cli run main.{kind if kind != 'source' else 'aelys'}` ({proj['shape']}): {what}",
+                                      {"project": proj, "route": kind, "output": out[-1500:], "source_run_output": runs["source"][1][-1500:],
+                                       "files": "write project.files into a directory; aelys-cli compile|asm main.aelys; aelys-cli run main.avbc|main.aasm"})
+    finally:
+        shutil.rmtree(root, ignore_errors=True)
+
+
 def run(ctx):
     ctx.level = "proof"
     ctx.cov["trusted_base"] = TRUSTED
@@ -760,7 +900,7 @@ def run(ctx):
     profiles = ["dev"] if ctx.tier == "quick" else ["dev", "release"]
     stats = {"runs": 0, "codes": collections.Counter(), "labels": collections.Counter(), "distinct": set(),
              "oracle_failures": collections.Counter(), "guards": collections.Counter(), "sessions": 0,
-             "sessions_continuing_after_a_failed_input": 0, "counter_reads": 0, "readback_calls": 0, "foreign_writes": 0,
+             "sessions_continuing_after_a_failed_input": 0, "sessions_rejected_after_load": 0, "bytecode_projects": 0, "bytecode_runs": 0, "counter_reads": 0, "readback_calls": 0, "foreign_writes": 0,
              "session_inputs": collections.Counter(), "session_outcomes": collections.Counter(), "opt_levels": collections.Counter(),
              "forms": collections.Counter(), "spellings": collections.Counter(), "sizes": collections.Counter(),
              "features": collections.Counter(), "ns_class": 0, "nested": 0, "cyclic": 0}
@@ -772,6 +912,9 @@ def run(ctx):
             p = os.path.join(vlib.CACHE, "c19-replay.txt")
             open(p, "w").write(rp["tree"].replace(";", "\n") + "\n")
             corpus, n_random = [p], 0
+        elif "project" in rp:
+            bytecode_route(ctx, stats, only=rp["project"])
+            return
     for prof in profiles:
         ok, paths, log = vlib.harness_build(["hx_modules"], profile=prof)
         if not ok:
@@ -795,7 +938,9 @@ def run(ctx):
                 return
             check_rows(ctx, rows, prof, "generated" if sd == ctx.seed else f"generated(seed {sd})", stats)
         ctx.add_samples([{"tree": r[2], "observed": r[3]} for r in (rows[2], rows[len(rows) // 2], rows[-1])])
-    ctx.cov["evaluations"] = stats["runs"]
+    if not getattr(ctx, "replay_file", None):
+        bytecode_route(ctx, stats)
+    ctx.cov["evaluations"] = stats["runs"] + stats["bytecode_runs"]
     ctx.cov["distinct_nontrivial"] = len(stats["distinct"])
     ctx.cov["input_distribution"] = {
         "trees": sum(stats["codes"].values()), "outcomes": dict(stats["codes"]), "families": dict(stats["labels"]),
@@ -806,6 +951,8 @@ def run(ctx):
         "repl_input_outcomes": dict(stats["session_outcomes"]),
         "repl_sessions_continuing_after_a_failed_input": stats["sessions_continuing_after_a_failed_input"],
         "repl_reads_of_a_module's_mutable_counter": stats["counter_reads"],
+        "repl_sessions_with_an_input_rejected_after_its_imports_loaded": stats["sessions_rejected_after_load"],
+        "compile_then_run_bytecode_projects(source, .avbc, .aasm run each)": stats["bytecode_projects"],
         "own_state_read_back_through_the_module's_function": stats["readback_calls"],
         "trees_where_the_entry_assigns_to_a_module's_private_name": stats["foreign_writes"],
         "entry_opt_levels": dict(stats["opt_levels"]), "import_statements_by_form": dict(stats["forms"]),
